@@ -307,12 +307,50 @@ C16Clauses ==
              IF mir /\ v \notin {"psixy", "hy", "Bxy"} THEN Near(Abs(a), Abs(b), 100) ELSE Near(a, sg * b, 100), Obs.kind)
 
 --------------------------------------------------------------------------
+(* C12: the written file is a valid grid (GridFile: documented variable set, shapes, allowed NaNs) *)
+Field2DNames == {"Rxy", "Zxy", "psixy", "dx", "dy", "poloidal_distance", "Brxy", "Bzxy", "Bpxy", "Btxy", "Bxy", "hy", "dphidy", "ShiftTorsion",
+                 "zShift", "g11", "g22", "g33", "g12", "g13", "g23", "J", "g_11", "g_22", "g_33", "g_12", "g_13", "g_23",
+                 "curl_bOverB_x", "curl_bOverB_y", "curl_bOverB_z", "bxcvx", "bxcvy", "bxcvz", "y-coord", "theta", "chi"}
+CornerNames == {"Rxy_corners", "Zxy_corners", "Rxy_lower_right_corners", "Zxy_lower_right_corners", "Rxy_upper_right_corners",
+                "Zxy_upper_right_corners", "Rxy_upper_left_corners", "Zxy_upper_left_corners"}
+IntNames == {"nx", "ny", "y_boundary_guards", "ixseps1", "ixseps2", "jyseps1_1", "jyseps2_1", "jyseps1_2", "jyseps2_2", "ny_inner"}
+Documented2D == UNION {{n, n \o "_xlow", n \o "_ylow"} : n \in Field2DNames} \cup CornerNames \cup {"penalty_mask"}
+               \cup (IF Obs.orth = 1 THEN {"hthe", "hthe_xlow", "hthe_ylow"} ELSE {})
+               \cup (IF Obs.has_pressure = 1 THEN {"pressure", "pressure_xlow", "pressure_ylow"} ELSE {})
+DocumentedX == {"ShiftAngle", "total_poloidal_distance"}
+DocumentedScalars == IntNames \cup {"Bt_axis", "curvature_type"} \cup (IF T \in {"CORE", "LIM"} THEN {} ELSE {"psi_axis", "psi_bdry"})
+VarSet == {Obs.vars[k] : k \in 1..Len(Obs.vars)}
+IsChi(n) == n \in {"chi", "chi_xlow", "chi_ylow"}
+C12Clauses ==
+  /\ ClauseAt("AllDocumentedPresent", (Documented2D \cup DocumentedX \cup DocumentedScalars \cup {"closed_wall_R", "closed_wall_Z",
+                                        "hypnotoad_inputs", "hypnotoad_inputs_yaml"}) \subseteq VarSet, "file")
+  /\ ClauseAt("Shapes2D", \A n \in Documented2D : n \in VarSet => Obs.shapes[n] = <<NX, NY>>, "file")
+  /\ ClauseAt("ShapesX", \A n \in DocumentedX : n \in VarSet => Obs.shapes[n] = <<NX>>, "file")
+  /\ ClauseAt("ShapesScalar", \A n \in IntNames \cup {"Bt_axis"} : n \in VarSet => Obs.shapes[n] = <<>>, "file")
+  /\ ClauseAt("WallClosed", Obs.nwall >= 4 /\ Obs.shapes["closed_wall_Z"] = Obs.shapes["closed_wall_R"], "file")
+  \* every value finite, except chi off the closed surfaces and the two x-arrays outside the core
+  /\ \A k \in 1..Len(Obs.names2d) :
+        LET n == Obs.names2d[k] IN
+        ClauseAt("FiniteExceptAllowedNaN", Obs.shapes[n] = <<NX, NY>> =>
+          \A x \in XS : \A y \in YS : Obs.nan2d[n][x + 1][y + 1] = 1 => (IsChi(n) /\ ~OnClosed(x, y)), n)
+  /\ ClauseAt("FiniteExceptAllowedNaN", \A k \in 1..Len(Obs.names1d) :
+        LET n == Obs.names1d[k] IN
+          \A i \in 1..Len(Obs.nan1d[n]) : Obs.nan1d[n][i] = 1 => (n \in DocumentedX /\ Len(Obs.nan1d[n]) = NX /\ ~ClosedX(i - 1)), "1d")
+  /\ ClauseAt("FiniteExceptAllowedNaN", \A k \in 1..Len(Obs.names0d) : Obs.nan0d[Obs.names0d[k]] = 0, "0d")
+  /\ ClauseAt("HyDyPositive", \A n \in DOMAIN Obs.positive : \A x \in XS : \A y \in YS : Obs.positive[n][x + 1][y + 1] = 1, "2d")
+  /\ ClauseAt("NoFoldedCell", \A x \in XS : \A y \in YS :
+        /\ Obs.orient.ll[x + 1][y + 1] # 0 /\ Obs.orient.ll[x + 1][y + 1] = Obs.orient.ll[1][1]
+        /\ Obs.orient.ur[x + 1][y + 1] = Obs.orient.ll[1][1], "2d")
+  /\ ClauseAt("InputsYamlLoads", Obs.text_ok.yaml = 1, "file")
+
+--------------------------------------------------------------------------
 Observe ==
   /\ stage = "file"
   /\ CASE Obs.prop = "C01" -> C01Clauses
        [] Obs.prop = "C02" -> PairClauses
        [] Obs.prop = "C03" -> PairClauses /\ C03Extra
        [] Obs.prop = "C08" -> C08GridClauses
+       [] Obs.prop = "C12" -> C12Clauses
        [] Obs.prop = "C16" -> C16Clauses
        [] Obs.prop = "C05" -> C05Clauses
        [] Obs.prop = "C06" -> C06Clauses
